@@ -485,6 +485,151 @@ func partB(r *rand.Rand, iterations int, stats map[string]int) (fail string, tra
 	return "", nil
 }
 
+// Part C — filters on a collection that does not change: a full iteration with a selective MATCH / TYPE
+// and a small COUNT returns exactly the matching elements (C17: "MATCH, TYPE and COUNT only filter or
+// batch the result and never cause a stable matching element to be skipped"). The collections are large
+// against COUNT and almost everything is filtered out, so a call has to walk far to fill its batch; the
+// patterns are literal names, names with the backslash escape as the only special character, names that
+// contain glob metacharacters themselves, classes and wildcards.
+func partFilter(r *rand.Rand, rounds int, stats map[string]int) (fail string, trace []string) {
+	vs := redisemu.VerifNewStore("")
+	cl := vs.NewClient()
+	defer cl.Close()
+	run := func(args ...string) []byte {
+		argv := make([][]byte, len(args))
+		for i, a := range args {
+			argv[i] = []byte(a)
+		}
+		trace = append(trace, strings.Join(args, " "))
+		if len(trace) > 2000 {
+			trace = trace[len(trace)-2000:]
+		}
+		reply, p := cl.Dispatch(argv)
+		if p != "" {
+			return []byte("PANIC " + p)
+		}
+		return reply
+	}
+	parse := func(b []byte) (cursor string, elems []string, ok bool) {
+		lines := strings.Split(string(b), "\r\n")
+		if len(lines) < 4 || lines[0] != "*2" {
+			return "", nil, false
+		}
+		cursor = lines[2]
+		n, err := strconv.Atoi(strings.TrimPrefix(lines[3], "*"))
+		if err != nil {
+			return "", nil, false
+		}
+		i := 4
+		for e := 0; e < n; e++ {
+			if i+1 >= len(lines) {
+				return "", nil, false
+			}
+			elems = append(elems, lines[i+1])
+			i += 2
+		}
+		return cursor, elems, true
+	}
+	for round := 0; round < rounds; round++ {
+		run("FLUSHALL")
+		n := 40 + r.Intn(160)
+		var names []string
+		for i := 0; i < n; i++ {
+			names = append(names, fmt.Sprintf("e%d", i))
+		}
+		names = append(names, "ab", "a\\b", "a*b", "a?b", "user:1", "user\\:1", "[x]", "plain")
+		for _, e := range names {
+			run("SET", e, "v")       // keys of database 0 (type string)
+			run("HSET", "h", e, "v") // fields
+			run("SADD", "s", e)      // members
+		}
+		run("RPUSH", "alist", "x") // a key of another type, for TYPE
+		keysAll := append(append([]string{}, names...), "h", "s", "alist")
+		pick := func() string { return names[r.Intn(len(names))] }
+		esc := func(e string) string { // every character escaped: matches exactly e
+			var b strings.Builder
+			for i := 0; i < len(e); i++ {
+				b.WriteByte('\\')
+				b.WriteByte(e[i])
+			}
+			return b.String()
+		}
+		var pats []string
+		for i := 0; i < 4; i++ {
+			e := pick()
+			pats = append(pats, e, esc(e))
+		}
+		pats = append(pats, "a\\b", "a\\\\b", "a\\*b", "a[*]b", "user\\:1", "user\\\\:1", "[[]x]", "e1?", "e[1-2]", "*9", "nomatch", "e1\\0")
+		for _, pat := range pats {
+			for _, kind := range []string{"keys", "hash", "set"} {
+				count := strconv.Itoa(1 + r.Intn(3))
+				typeFilter := kind == "keys" && r.Intn(3) == 0
+				seen := map[string]bool{}
+				cursor, calls := "0", 0
+				for {
+					calls++
+					if calls > 100000 {
+						return fmt.Sprintf("%s iteration with MATCH %q COUNT %s did not end within 100000 calls", kind, pat, count), trace
+					}
+					var args []string
+					switch kind {
+					case "keys":
+						args = []string{"SCAN", cursor, "MATCH", pat, "COUNT", count}
+						if typeFilter {
+							args = append(args, "TYPE", "string")
+						}
+					case "hash":
+						args = []string{"HSCAN", "h", cursor, "MATCH", pat, "COUNT", count}
+					case "set":
+						args = []string{"SSCAN", "s", cursor, "COUNT", count, "MATCH", pat}
+					}
+					next, elems, ok := parse(run(args...))
+					if !ok {
+						return fmt.Sprintf("%s: unexpected reply", strings.Join(args, " ")), trace
+					}
+					stats["filter_calls"]++
+					if kind == "hash" {
+						var fs []string
+						for i := 0; i+1 < len(elems); i += 2 {
+							fs = append(fs, elems[i])
+						}
+						elems = fs
+					}
+					for _, e := range elems {
+						seen[e] = true
+					}
+					cursor = next
+					if cursor == "0" {
+						break
+					}
+				}
+				universe := names
+				if kind == "keys" {
+					universe = keysAll
+				}
+				want := map[string]bool{}
+				for _, e := range universe {
+					if redisemu.VerifGlob(pat, e) && !(typeFilter && (e == "h" || e == "s" || e == "alist")) {
+						want[e] = true
+					}
+				}
+				for e := range want {
+					if !seen[e] {
+						return fmt.Sprintf("%s full iteration with MATCH %q COUNT %s (%d elements, nothing changing) never returned %q", kind, pat, count, len(universe), e), trace
+					}
+				}
+				for e := range seen {
+					if !want[e] {
+						return fmt.Sprintf("%s full iteration with MATCH %q returned %q, which does not match", kind, pat, e), trace
+					}
+				}
+				stats["filter_iterations"]++
+			}
+		}
+	}
+	return "", nil
+}
+
 func main() {
 	seed := flag.Int64("seed", 1, "seed")
 	histories := flag.Int("histories", 6, "dict histories (part A)")
@@ -523,6 +668,12 @@ func main() {
 	if failures == 0 {
 		if f, tr := partB(r, *iterations, stats); f != "" {
 			report("iteration", f, tr)
+		}
+	}
+	if failures == 0 {
+		rounds := 1 + *iterations/40
+		if f, tr := partFilter(r, rounds, stats); f != "" {
+			report("filter", f, tr)
 		}
 	}
 	res := map[string]any{"stats": stats, "failures": failures, "wall_s": time.Since(start).Seconds(),
